@@ -5,6 +5,7 @@ game's conventions) + injectivity invariant on the observed code table + orderin
 permutations, both through sort() and through on-disk discovery."""
 import itertools, os, shutil
 from ..core import digest
+from ..fmt import zipatch as zp
 
 LEVEL = "exploration"
 RULE = ("finite domains enumerated through the real functions and compared with independent Python tables: "
@@ -13,7 +14,9 @@ RULE = ("finite domains enumerated through the real functions and compared with 
         "for every triple plus all 0..9999 for one triple per shard; thorough: all 0..9999 for every triple) with "
         "deconstruct(build(x)) == x; all 5 platforms x 10 expansions x 15 categories x 10 chunks x 8 dat ids file names; "
         "every permutation of every subset (quick: size <= 5 complete, sizes 6-7 sampled; thorough: size <= 7 complete) of "
-        "{ffxiv, ex1..ex9} through sort() and directories created in permuted order for on-disk discovery. "
+        "{ffxiv, ex1..ex9} through sort() and directories created in permuted order for on-disk discovery; patch side: one patch per platform x expansion "
+        "touching every category x chunk x dat id (add / expand / header commands) and both index files through every (file kind, header kind) pair, "
+        "the set of files created == the read-side names of the same tuples and each command's bytes land in its own file. "
         "non-trivial = valid triple / permutation of >= 2 members / file name; distinct = the tuple itself")
 ASSUMPTIONS = ["race code table 101..1801 and path conventions as used by the retail game client (TexTools/Lumina conventions)"]
 
@@ -50,6 +53,7 @@ def shard(ctx):
     paths(ctx, full)
     ordering(ctx, full)
     discovery(ctx, 12 if not full else 60)
+    patch_side_names(ctx)
 
 
 def race_table(ctx):
@@ -248,4 +252,75 @@ def discovery(ctx, n):
             ctx.call("drop", rec.value["handle"])
         elif rec.outcome == "none":
             ctx.violation("order", dict(sub="discovery_failed"), dict(created=order))
+        shutil.rmtree(root, ignore_errors=True)
+
+
+def patch_side_names(ctx):
+    """the files ZiPatch::apply creates for (platform, expansion, category, chunk, dat id) carry exactly the names the read side
+    computes for the same tuple: one patch per (platform, expansion) touching every category x chunk x dat id and both index files
+    through every (file kind, header kind) combination of the header command"""
+    out = ctx.path("names2.out")
+    rec = ctx.call("repo.names", out)
+    if not rec.ok:
+        return
+    reader = {}
+    for l in ctx.read("names2.out").decode().split("\n"):
+        if l:
+            plat, ex, cat, ch, dat, idx, idx2, dn = l.split(" ")
+            reader[(plat, int(ex), int(cat), int(ch), int(dat))] = (idx, idx2, dn)
+    rng = ctx.rng
+    pairs = [(pl, ex) for pl in range(5) for ex in range(10)]
+    for k, (pl, ex) in enumerate(pairs):
+        if k % ctx.nshards != ctx.index:
+            continue
+        pn = zp.PLATFORM_NAMES[pl]
+        ops = [dict(op="FHDR", version=3), dict(op="T", platform=pl)]
+        expected = set()
+        folder = "ffxiv" if ex == 0 else "ex%d" % ex
+        for cat in CATS:
+            for ch in range(10):
+                sub = (ex << 8) | ch
+                for fid in range(8):
+                    how = (fid + cat + ch) % 3
+                    if how == 0:
+                        ops.append(dict(op="A", main=cat, sub=sub, fid=fid, off=rng.randrange(4), data=rng.randbytes(128), dele=0))
+                    elif how == 1:
+                        ops.append(dict(op="E", main=cat, sub=sub, fid=fid, off=0, n=2))
+                    else:
+                        ops.append(dict(op="H", fk=b"D", hk=rng.choice([b"V", b"D", b"I"]), main=cat, sub=sub, fid=fid, data=rng.randbytes(1024)))
+                    expected.add("sqpack/%s/%s" % (folder, reader[(pn, ex, cat, ch, fid)][2]))
+                for hk in (b"V", b"I", b"D"):
+                    ops.append(dict(op="H", fk=b"I", hk=hk, main=cat, sub=sub, fid=0, data=rng.randbytes(1024)))
+                ops.append(dict(op="H", fk=b"I", hk=rng.choice([b"V", b"I", b"D"]), main=cat, sub=sub, fid=2, data=rng.randbytes(1024)))
+                expected.add("sqpack/%s/%s" % (folder, reader[(pn, ex, cat, ch, 0)][0]))
+                expected.add("sqpack/%s/%s" % (folder, reader[(pn, ex, cat, ch, 0)][1]))
+        ops.append(dict(op="EOF"))
+        wire = zp.serialise(ops)
+        pf = ctx.write("names.patch", wire)
+        root = ctx.path("names-target")
+        shutil.rmtree(root, ignore_errors=True)
+        os.makedirs(root)
+        ctx.case(("patch-names", pn, ex), True, ["patch-side-names:%s" % pn], sample=dict(platform=pn, expansion=ex, commands=len(ops), files_expected=len(expected)))
+        r = ctx.call("zp.apply", root, pf, input_bytes=len(wire))
+        if not ctx.check_mon(r, len(wire), files=[pf]):
+            shutil.rmtree(root, ignore_errors=True)
+            continue
+        if not r.ok:
+            ctx.violation("names", dict(sub="patch_apply_failed", platform=pn), dict(outcome=r.outcome, expansion=ex), files=[pf])
+            shutil.rmtree(root, ignore_errors=True)
+            continue
+        files, dirs = zp.snapshot(root)
+        got = set(files)
+        ctx.stats.evaluations += len(expected)
+        ctx.stats.classes["patch-side-file"] += len(got)
+        if got != expected:
+            ctx.violation("names", dict(sub="patch_side_names_differ_from_read_side", platform=pn),
+                          dict(expansion=ex, only_written=sorted(got - expected)[:6], only_read_side=sorted(expected - got)[:6]), files=[pf])
+        else:
+            # the content lands in the file of its own tuple (reference semantics of the commands)
+            model = zp.Model({}, [])
+            model.apply(ops)
+            diffs = zp.compare(model, files, dirs)
+            if diffs:
+                ctx.violation("names", dict(sub="patch_side_content_in_wrong_file", platform=pn, diff="+".join(sorted({d[0] for d in diffs}))), dict(expansion=ex, diffs=diffs[:5]), files=[pf])
         shutil.rmtree(root, ignore_errors=True)
